@@ -85,8 +85,30 @@ func (g *gen) config(c *caseT, exotic bool) {
 				continue
 			}
 			label := vh.Pick(r, plainLabels)
+			var sibs []string
+			if r.Chance(25) { // keyword-colliding family (kwfam.go): every rung of every keyword ladder
+				label, sibs = g.kwLabelFor()
+			}
 			if r.Chance(4) {
 				label = vh.Pick(r, hotLabels)
+				sibs = nil
+			}
+			if len(sibs) > 0 && r.Chance(60) {
+				// a one-edit sibling bound to another namespace: a lost/doubled rune becomes a wrong IRI
+				s := vh.Pick(r, sibs)
+				if !used[s] {
+					used[s] = true
+					sns := vh.Pick(r, namespaces)
+					for _, m := range c.cfg.prefixes {
+						if m.Expanded == sns {
+							sns = vh.KwNamespace(s)
+						}
+					}
+					if sns != ns {
+						c.cfg.prefixes = append(c.cfg.prefixes, iri.PrefixMapping{Prefix: s, Expanded: sns})
+						g.rep.Count("cfg:kw-family-sibling")
+					}
+				}
 			}
 			if used[label] && r.Chance(90) {
 				label = label + fmt.Sprint(len(used))
@@ -629,6 +651,7 @@ func main() {
 		}
 		g.corpus()
 		g.exhaustiveFlags()
+		g.kwSweep()
 		n := 60000 * *scale
 		if *tier == "thorough" {
 			n = 2000000 * *scale
